@@ -815,6 +815,24 @@ pub fn c12(rec: &mut Rec, lm: &Landmarks, rng: &mut Rng, thorough: bool) {
             m.cmp(Epoch::from_duration(ns_dur(y - off), b));
         }
     }
+    // an operand strictly inside an inserted second (where the UTC count cannot move) against UTC
+    // epochs at the entry, in both operand orders and through a third scale
+    for (t, dnew) in leap_entries().into_iter().skip(1) {
+        let t = t as i128 * NS_S as i128;
+        let gap0 = t + (dnew as i128 - 1) * NS_S as i128; // TAI instant at which the insertion begins
+        for du in [-1i128, 0, 1, NS_S as i128] {
+            for dt in [0i128, 1, 500_000_000, 999_999_999, NS_S as i128] {
+                let utc = Epoch::from_duration(ns_dur(t + du), TimeScale::UTC);
+                let tai = Epoch::from_duration(ns_dur(gap0 + dt), TimeScale::TAI);
+                let gps = Epoch::from_duration(ns_dur(gap0 + dt - 2_524_953_619 * NS_S as i128), TimeScale::GPST);
+                m.eload_dur(TimeScale::UTC, utc.duration);
+                m.cmp(tai);
+                m.cmp(gps);
+                m.eload_dur(TimeScale::TAI, tai.duration);
+                m.cmp(utc);
+            }
+        }
+    }
     // random pairs, converted operands
     let n = if thorough { 150_000 } else { 6_000 };
     for _ in 0..n {
